@@ -509,6 +509,9 @@ class Verdict:
 STATS = {'z3_queries': 0, 'z3_s': 0.0, 'cvc5_queries': 0, 'cvc5_s': 0.0}
 
 
+_RL = [0, None]     # [cumulative rlimit count seen last, consumption of the last check]
+
+
 def check_trusted(make_solver, timeout_ms):
     """`solver.check()` under a timeout, guarded against a cancellation race of the installed z3
     (5.1.0): a check that is being cancelled by its timeout timer occasionally answers `unsat`
@@ -523,6 +526,12 @@ def check_trusted(make_solver, timeout_ms):
     t0 = time.time()
     r = s.check()
     dt = time.time() - t0
+    try:        # z3's 'rlimit count' is cumulative per context: keep the consumption of this check
+        now = s.statistics().get_key_value('rlimit count')
+        _RL[1] = now - _RL[0]
+        _RL[0] = now
+    except Exception:
+        _RL[1] = None
     if r == z3.unsat and dt * 1000.0 >= 0.6 * timeout_ms:
         STATS['late_unsat_rechecks'] = STATS.get('late_unsat_rechecks', 0) + 1
         s2 = make_solver()
@@ -583,7 +592,7 @@ def independent_of_axioms(formulas):
     return not (acc & _AX_SYMS[0])
 
 
-def solve(assumptions, goal, timeout_ms=10000, extra_axioms=(), want_model=True, use_cvc5=True):
+def solve(assumptions, goal, timeout_ms=10000, extra_axioms=(), want_model=True, use_cvc5=True, scale=None):
     """Check validity of (AXIOMS and assumptions) => goal.
     Returns (verdict, model_or_None, info)."""
     if not extra_axioms and independent_of_axioms(list(assumptions) + [goal]):
@@ -621,6 +630,12 @@ def solve(assumptions, goal, timeout_ms=10000, extra_axioms=(), want_model=True,
     # machine), not wall-clock times, so that a verdict cannot flip because the machine is busy; the wall-clock
     # timeout is only a distant safety net.  timeout_ms scales the limits (120 s == factor 1).
     f = max(0.25, timeout_ms / 120000.0)
+    if scale is not None:
+        # contract option 'rlimit_scale': explicit factor on the resource limits, no floor.  Used by tasks that
+        # are expected NOT to prove (known findings) so that they give up quickly; a smaller limit can only
+        # turn 'proved' into 'undecided', never the other way round.
+        f = float(scale)
+        use_cvc5 = use_cvc5 and f >= 0.25
     stages = [(False, int(4e6 * f)), (True, int(1.5e7 * f)), (False, int(5e7 * f)), (True, int(5e7 * f))]
     wall_ms = int(max(900000, 8 * timeout_ms))
     total = 0.0
@@ -638,11 +653,7 @@ def solve(assumptions, goal, timeout_ms=10000, extra_axioms=(), want_model=True,
         STATS['z3_s'] += dt
         name = 'z3(mbqi)' if mbqi else 'z3'
         if r == z3.unsat:
-            used = None
-            try:
-                used = sv.statistics().get_key_value('rlimit count')
-            except Exception:
-                pass
+            used = _RL[1]
             return Verdict.PROVED, None, {'backend': name, 's': total, 'rlimit_used': used, 'rlimit_cap': rl}
         if r == z3.sat:
             return Verdict.REFUTED, (sv.model() if want_model else None), {'backend': name, 's': total}
